@@ -683,6 +683,39 @@ fn directed(t: &mut Trace) {
     s.admin(t, 4, &[], &None, &[Tok::Call(5)]);
     s.admin(t, 0, &[U(1)], &None, &[Tok::Call(5)]);
     // ---------------------------------------------------------------------------------------
+    // delays whose sum with the current ledger reaches or leaves the u32 range: the ready ledger
+    // saturates at u32::MAX, the operation is Waiting, and the admin call made at once is refused
+    for (start, execs) in [(1000u32, vec![]), (7u32, vec![3usize])] {
+        t.seq(&format!("directed huge delays start={} min=100 prop=1 exec={} admin=-", start, show_list(&execs)));
+        let mut s = Sim::new(start, 100, &[1], &execs, None);
+        let ex = execs.first().copied();
+        let xt: Vec<Tok> = ex.map(|x| vec![Tok::Exec(x, 0)]).unwrap_or_default();
+        let wrap = u32::MAX - start + 1; // 2^32 - now
+        let delays = [u32::MAX - 500, u32::MAX, u32::MAX - start, wrap, wrap + 1, wrap + 2, wrap - 2, wrap + start / 2, wrap + (start - 1).min(400)];
+        for (i, d) in delays.iter().enumerate() {
+            let k = s.def(t, od(0, 0, &[U(0)], Zero, i as u32)); // update_delay(0), one salt per delay
+            s.sched(t, k, *d, 1, &[Tok::Call(1)]);
+            s.admin(t, 0, &[U(0)], &Some(vec![md(Zero, i as u32, ex)]), &xt);
+            s.check(t, &[md(Zero, i as u32, ex)], &[Ctx::Def(k)], &xt);
+        }
+        let g = s.def(t, od(0, 1, &[A(2), S(0), A(0)], Zero, 0)); // grant_role(2, proposer)
+        s.sched(t, g, wrap + 5, 1, &[Tok::Call(1)]);
+        s.admin(t, 1, &[A(2), S(0), A(0)], &Some(vec![md(Zero, 0, ex)]), &xt);
+        let tr = s.def(t, od(0, 3, &[A(5), U(start + 50_000)], Zero, 0)); // transfer_admin_role
+        s.sched(t, tr, u32::MAX, 1, &[Tok::Call(1)]);
+        s.admin(t, 3, &[A(5), U(start + 50_000)], &Some(vec![md(Zero, 0, ex)]), &xt);
+        s.advance(t, 100);
+        s.admin(t, 0, &[U(0)], &Some(vec![md(Zero, 3, ex)]), &xt); // still waiting after the minimum delay
+        // the ordinary path still works next to them
+        let okk = s.def(t, od(0, 0, &[U(1)], Zero, 0));
+        s.sched(t, okk, 100, 1, &[Tok::Call(1)]);
+        s.advance(t, 99);
+        s.admin(t, 0, &[U(1)], &Some(vec![md(Zero, 0, ex)]), &xt);
+        s.advance(t, 1);
+        s.admin(t, 0, &[U(1)], &Some(vec![md(Zero, 0, ex)]), &xt);
+        s.cancel(t, &Op(0), 1, &[Tok::Call(1)]);
+    }
+    // ---------------------------------------------------------------------------------------
     t.seq("directed external admin from the start start=10 min=1 prop=2 exec=1 admin=4");
     let mut s = Sim::new(10, 1, &[2], &[1], Some(4));
     s.admin(t, 0, &[U(3)], &Some(vec![]), &[]);
@@ -830,14 +863,35 @@ fn main() {
                 let props = s.members(0);
                 let by = if !props.is_empty() && rng.chance(85) { *rng.pick(&props) } else { 1 + rng.below(NACC as u64) as usize };
                 let m = s.min_delay();
-                let d = match rng.below(8) {
+                let wrap = (u32::MAX - s.now).wrapping_add(1); // 2^32 - now: the first delay whose sum leaves u32
+                let d = match rng.below(16) {
                     0 => m.saturating_sub(1),
                     1 => m.saturating_add(1),
                     2 => m.saturating_add(rng.below(4) as u32),
+                    // the saturating ready ledger: sums at and just beyond u32::MAX
+                    3 => u32::MAX,
+                    4 => u32::MAX - s.now,
+                    5 => wrap,
+                    6 => wrap.saturating_add(1),
+                    7 => wrap.saturating_add(1 + rng.below(s.now.min(50) as u64) as u32),
+                    8 => wrap.saturating_sub(2),
                     _ => m,
                 };
-                let toks = plain_toks(&mut rng, by);
-                s.sched(&mut t, k, d, by, &toks);
+                let huge = d > u32::MAX / 2;
+                let toks = if huge { vec![Tok::Call(by)] } else { plain_toks(&mut rng, by) };
+                let ok = s.sched(&mut t, k, d, by, &toks);
+                if ok && huge && s.defs[k].t == 0 && s.admin_idx() == Some(0) {
+                    // ... and at once the admin call itself, with the controller's own credential and
+                    // the right descriptor: the delay has not elapsed
+                    let dd = s.defs[k].clone();
+                    let execs = s.members(1);
+                    let ex = execs.first().copied();
+                    let toks = ex.map(|x| vec![Tok::Exec(x, 0)]).unwrap_or_default();
+                    s.admin(&mut t, dd.f, &dd.a, &Some(vec![md(dd.p.clone(), dd.s, ex)]), &toks);
+                    if rng.chance(50) {
+                        s.check(&mut t, &[md(dd.p.clone(), dd.s, ex)], &[Ctx::Def(k)], &toks);
+                    }
+                }
             } else if r < 52 {
                 // an admin-only entry point called directly with the controller's own credential
                 let selfops: Vec<usize> = (0..n).filter(|&j| s.defs[j].t == 0).collect();
